@@ -628,6 +628,25 @@ func (env *vfC14Env) onConn(point string, c *Conn, call *callReq, a, b int, err 
 
 // ---------------------------------------------------------------- the nodes
 
+// vfC14PayloadTok reads the executor token from the request's custom payload ("vf-e"), 0 if there is none. Every
+// EXECUTE / BATCH carries it, so a frame can be attributed to its executor even when it carries no bound value.
+func vfC14PayloadTok(f *vfFrame) int {
+	if f.Flags&0x04 == 0 || f.Version < 4 {
+		return 0
+	}
+	r := &vfR{b: f.Body}
+	n := r.Short()
+	for i := 0; i < n && r.err == nil; i++ {
+		k := r.String()
+		v, _ := r.Bytes()
+		if k == "vf-e" {
+			e, _ := strconv.Atoi(string(v))
+			return e
+		}
+	}
+	return 0
+}
+
 func (env *vfC14Env) handler(host string) func(nc *vfNodeConn, f *vfFrame, q *vfRequest) bool {
 	return func(nc *vfNodeConn, f *vfFrame, q *vfRequest) bool {
 		wire := env.tr.ObjID(nc.Conn.in)
@@ -666,13 +685,13 @@ func (env *vfC14Env) handler(host string) func(nc *vfNodeConn, f *vfFrame, q *vf
 			}
 			return true
 		case vfOpExecute, vfOpBatch:
-			h := &vfC14Held{nc: nc, f: f, q: q, kind: "execute", host: host, wire: wire, idsOK: true}
+			h := &vfC14Held{nc: nc, f: f, q: q, kind: "execute", host: host, wire: wire, idsOK: true, e: vfC14PayloadTok(f)}
 			var nvals []int
 			if f.Op == vfOpExecute {
 				id, ok := vfC14ParseID(q.PreparedID)
 				h.ids, h.idsOK = []vfC14ID{id}, ok
 				nvals = []int{len(q.Values)}
-				if len(q.Values) > 0 && len(q.Values[0]) == 4 {
+				if h.e == 0 && len(q.Values) > 0 && len(q.Values[0]) == 4 {
 					h.e = int(int32(uint32(q.Values[0][0])<<24 | uint32(q.Values[0][1])<<16 | uint32(q.Values[0][2])<<8 | uint32(q.Values[0][3])))
 				}
 			} else {
@@ -680,7 +699,7 @@ func (env *vfC14Env) handler(host string) func(nc *vfNodeConn, f *vfFrame, q *vf
 				for i, bid := range q.BatchIDs {
 					if bid == nil {
 						var e int
-						if _, err := fmt.Sscanf(q.BatchStmts[i], "INSERT INTO vftok (e) VALUES (%d)", &e); err == nil {
+						if _, err := fmt.Sscanf(q.BatchStmts[i], "INSERT INTO vftok (e) VALUES (%d)", &e); err == nil && h.e == 0 {
 							h.e = e
 						}
 						continue
@@ -1031,6 +1050,9 @@ func (env *vfC14Env) execute(ctx context.Context, sp vfC14ExecSpec) (cls string,
 	// binder returns a binding callback that hands over the values and logs the metadata it was given
 	binder := func(it vfC14Item) func(q *QueryInfo) ([]interface{}, error) {
 		args := vfC14Args(sp.E, it.N)
+		if it.N == 0 && sp.E%2 == 1 {
+			args = nil // no values at all: an empty slice for even executors, nil for odd ones
+		}
 		return func(qi *QueryInfo) ([]interface{}, error) {
 			id, ok := vfC14ParseID(qi.Id)
 			env.tr.Emit("e_bound", "e", sp.E, "s", it.S, "id", id.json(), "idok", ok, "nargs", len(qi.Args))
@@ -1051,6 +1073,7 @@ func (env *vfC14Env) execute(ctx context.Context, sp vfC14ExecSpec) (cls string,
 	}
 	if sp.Kind == "batch" {
 		b := env.sess.NewBatch(LoggedBatch).WithContext(ctx)
+		b.CustomPayload = map[string][]byte{"vf-e": []byte(strconv.Itoa(sp.E))}
 		tok := fmt.Sprintf("INSERT INTO vftok (e) VALUES (%d)", sp.E) // no values: goes out unprepared
 		if !sp.TokLast {
 			b.Query(tok)
@@ -1087,6 +1110,7 @@ func (env *vfC14Env) execute(ctx context.Context, sp vfC14ExecSpec) (cls string,
 	default:
 		q = env.sess.Query(vfC14StmtByName(it.S).Text, vfC14Args(sp.E, it.N)...).WithContext(ctx)
 	}
+	q.CustomPayload(map[string][]byte{"vf-e": []byte(strconv.Itoa(sp.E))})
 	if pin != nil {
 		q.conn = pin
 	}
